@@ -613,6 +613,27 @@ Proof.
   - split; [discriminate|]. intros (? & ? & _). discriminate.
 Qed.
 
+(** ** Restarts: the Context, and with it the children map, outlives the
+    incarnation, so a restart marker anywhere in the history changes nothing *)
+Lemma ops_of_app h1 h2 : ops_of (h1 ++ h2) = ops_of h1 ++ ops_of h2.
+Proof. unfold ops_of. apply flat_map_app. Qed.
+
+Lemma hrun_restart h1 n h2 : hrun (h1 ++ HRestart n :: h2) = hrun (h1 ++ h2).
+Proof. unfold hrun. rewrite !ops_of_app. reflexivity. Qed.
+
+Theorem restart_keeps_children h1 n h2 :
+  hist_fresh s_init (ops_of (h1 ++ h2)) ->
+  forall p, In p (s_alive (srun (ops_of (h1 ++ h2)))) ->
+    NoDup (children (hrun (h1 ++ HRestart n :: h2)) p) /\
+    (forall c, In c (children (hrun (h1 ++ HRestart n :: h2)) p) <->
+               exists o1 o2, ops_of (h1 ++ h2) = o1 ++ BSpawnChild p c :: o2 /\
+                             ~ In (BStopped c) o2 /\ ~ In (BStopped p) o2) /\
+    parent (hrun (h1 ++ HRestart n :: h2)) p = parent (hrun (h1 ++ h2)) p.
+Proof.
+  intros Hf p Hp. rewrite hrun_restart. unfold hrun.
+  destruct (children_listing _ Hf p Hp) as [H1 H2]. repeat split; auto; apply H2.
+Qed.
+
 (** ** The adoption corner (DESIGN.md section 4, further observations):
     SpawnChild with an id that is taken records the incumbent in the caller's
     map although no child was started; the incumbent does not know the caller
